@@ -65,6 +65,11 @@ type Chaos struct {
 	Latency time.Duration
 	// OnFrame, if set, sees every request frame (without the 4-byte size prefix) as the client wrote it.
 	OnFrame func(key, version int16, frame []byte)
+	// OnFrame2 / OnResp, if set, see every request frame and every delivered response frame (both without the size prefix) together
+	// with the connection and correlation id that tie them to each other. OnResp runs before the response reaches the client.
+	OnFrame2 func(conn int, corr int32, key, version int16, frame []byte)
+	OnResp   func(conn int, corr int32, frame []byte)
+	conns    int
 }
 
 func NewChaos() *Chaos {
@@ -167,13 +172,18 @@ func (l *chaosListener) Accept() (net.Conn, error) {
 	if err != nil {
 		return nil, err
 	}
-	return &chaosConn{Conn: conn, c: l.c, drop: map[int32]bool{}, delay: map[int32]time.Duration{}}, nil
+	l.c.mu.Lock()
+	l.c.conns++
+	id := l.c.conns
+	l.c.mu.Unlock()
+	return &chaosConn{Conn: conn, c: l.c, id: id, drop: map[int32]bool{}, delay: map[int32]time.Duration{}}, nil
 }
 
 // chaosConn is the broker side of a connection: Read delivers client requests to kfake, Write carries kfake's responses.
 type chaosConn struct {
 	net.Conn
 	c     *Chaos
+	id    int
 	mu    sync.Mutex
 	rbuf  []byte         // request bytes seen so far, not yet parsed
 	drop  map[int32]bool // correlation ids whose response must not be delivered
@@ -197,6 +207,9 @@ func (cc *chaosConn) Read(p []byte) (int, error) {
 			corr := int32(binary.BigEndian.Uint32(frame[4:8]))
 			if f := cc.c.OnFrame; f != nil {
 				f(key, int16(binary.BigEndian.Uint16(frame[2:4])), append([]byte{}, frame...))
+			}
+			if f := cc.c.OnFrame2; f != nil {
+				f(cc.id, corr, key, int16(binary.BigEndian.Uint16(frame[2:4])), append([]byte{}, frame...))
 			}
 			cc.mu.Unlock()
 			d := cc.c.request(key)
@@ -249,6 +262,9 @@ func (cc *chaosConn) Write(p []byte) (int, error) {
 			cc.mu.Unlock()
 			time.Sleep(d)
 			cc.mu.Lock()
+		}
+		if f := cc.c.OnResp; f != nil {
+			f(cc.id, corr, append([]byte{}, cc.wbuf[4:4+size]...))
 		}
 		out = append(out, cc.wbuf[:4+size]...)
 		cc.wbuf = cc.wbuf[4+size:]
